@@ -63,7 +63,7 @@ func runC06(w *World, r *Report, tier string) {
 								ok, detail = false, "after a route matched, the search continues: a later route can overwrite the match (last match wins)"
 								return
 							}
-							if bv, isC := boolConst(rt.Results[0]); !isC || !bv {
+							if bv, isC := boolConst(rres(path, rt)[0]); !isC || !bv {
 								ok, detail = false, "a matching route does not make Router.Match return true"
 							}
 						} else {
@@ -77,7 +77,7 @@ func runC06(w *World, r *Report, tier string) {
 			// after the loop: return false
 			walkPaths(Loc{lp.done, 0}, nil, nil, 100, func(path []ssa.Instruction, end pathEnd) {
 				if rt, isRet := path[len(path)-1].(*ssa.Return); isRet {
-					if bv, isC := boolConst(rt.Results[0]); !isC || bv {
+					if bv, isC := boolConst(rres(path, rt)[0]); !isC || bv {
 						ok, detail = false, "with no matching route Router.Match does not return false"
 					}
 				}
@@ -117,7 +117,7 @@ func runC06(w *World, r *Report, tier string) {
 						rt, isRet := last.(*ssa.Return)
 						if !isRet {
 							ok, detail = false, "a matcher's refusal does not end Route.Match"
-						} else if bv, isC := boolConst(rt.Results[0]); !isC || bv {
+						} else if bv, isC := boolConst(rres(path, rt)[0]); !isC || bv {
 							ok, detail = false, "a matcher's refusal does not make Route.Match return false"
 						}
 					}
@@ -144,7 +144,7 @@ func runC06(w *World, r *Report, tier string) {
 					rt, isRet := path[len(path)-1].(*ssa.Return)
 					bv, isC := false, false
 					if isRet {
-						bv, isC = boolConst(rt.Results[0])
+						bv, isC = boolConst(rres(path, rt)[0])
 					}
 					if !okR || !okH || !isRet || !isC || !bv {
 						ok, detail = false, "when all matchers agree Route.Match does not record this route and its handler and return true"
@@ -506,7 +506,7 @@ func c06Matchers(w *World, r *Report) {
 			})
 			if cmp == nil {
 				// direct `return name == string(n)`
-				if bo, isB := rt.Results[0].(*ssa.BinOp); isB && bo.Op == token.EQL {
+				if bo, isB := rres(path, rt)[0].(*ssa.BinOp); isB && bo.Op == token.EQL {
 					cmp = bo
 					truthV = true
 				} else {
@@ -514,7 +514,7 @@ func c06Matchers(w *World, r *Report) {
 					return
 				}
 			} else {
-				bv, isC := boolConst(rt.Results[0])
+				bv, isC := boolConst(rres(path, rt)[0])
 				eqHolds := (cmp.Op == token.EQL) == truthV
 				if !isC || bv != eqHolds {
 					bad = "the result is not the outcome of the name comparison"
@@ -562,12 +562,12 @@ func c06Matchers(w *World, r *Report) {
 			}
 			np++
 			if !isStanza {
-				if bv, isC := boolConst(rt.Results[0]); !isC || bv {
+				if bv, isC := boolConst(rres(path, rt)[0]); !isC || bv {
 					bad = "a non-stanza packet can match a stanza-type route"
 				}
 				return
 			}
-			c, isCall := rt.Results[0].(*ssa.Call)
+			c, isCall := rres(path, rt)[0].(*ssa.Call)
 			if !isCall || len(c.Call.Args) != 2 || !membershipOK(c.Call.StaticCallee()) || w.nf(c.Call.Args[0], 0) != "param:m" {
 				bad = "the result is not membership of the stanza's type in the configured types"
 				return
@@ -621,7 +621,7 @@ func c06Matchers(w *World, r *Report) {
 			}
 			np++
 			if n != "*stanza.IQ" {
-				if bv, isC := boolConst(rt.Results[0]); !isC || bv {
+				if bv, isC := boolConst(rres(path, rt)[0]); !isC || bv {
 					bad = "a non-IQ packet can match an IQ-namespace route"
 				}
 				return
@@ -635,12 +635,12 @@ func c06Matchers(w *World, r *Report) {
 				return len(fp) > 0 && fp[len(fp)-1].Name() == "Payload"
 			})
 			if payloadNil {
-				if bv, isC := boolConst(rt.Results[0]); !isC || bv {
+				if bv, isC := boolConst(rres(path, rt)[0]); !isC || bv {
 					bad = "an IQ without payload can match"
 				}
 				return
 			}
-			c, isCall := rt.Results[0].(*ssa.Call)
+			c, isCall := rres(path, rt)[0].(*ssa.Call)
 			if !isCall || len(c.Call.Args) != 2 || !membershipOK(c.Call.StaticCallee()) || w.nf(c.Call.Args[0], 0) != "param:m" {
 				bad = "the result is not membership of the payload namespace in the configured namespaces"
 				return
